@@ -6,6 +6,7 @@ package c07
 
 import (
 	"fmt"
+	"reflect"
 	"strings"
 	"testing"
 
@@ -56,6 +57,11 @@ func draw(t *rapid.T) *pbt.Case {
 		}
 		s = w
 	}
+	if mech == "secondary" && rapid.IntRange(0, 2).Draw(t, "twin") == 0 {
+		// the secondary error is a separately created, mark-equal twin of the main error
+		s = &gen.Spec{K: "combine", C: h, X: []*gen.Spec{h.Clone()}}
+	}
+	gen.SprinkleEmpty(t, s)
 	c := &pbt.Case{Spec: s}
 	c.SetStr("mechanism", mech)
 	c.SetInt("hops", rapid.IntRange(0, 2).Draw(t, "hops"))
@@ -166,12 +172,19 @@ func check(c *pbt.Case, r *pbt.R) {
 				continue
 			}
 			o := b.Of[n]
+			if reflect.ValueOf(o).Kind() != reflect.Ptr {
+				continue // values compare by content: an equal twin elsewhere is not the hidden object
+			}
 			for _, v := range reach {
 				if gen.Identical(o, v) && fmt.Sprintf("%T", o) != "gen.ULeafVal" {
 					r.Failf("a hidden error is reachable through Unwrap/Cause/UnwrapAll: "+h.how, "hidden node %s (%T)\nspec %s", n.K, o, c.Spec)
 				}
 			}
 		}
+	}
+	// The hidden error is attached at all: the layer structure is the documented one.
+	if _, err := gen.Visible(c.Spec, e); err != nil {
+		r.Failf("model and implementation disagree on the layer structure", "%v", err)
 	}
 	// (iii) Handled keeps the hidden text, the WithMessage variants replace it.
 	for _, n := range c.Spec.Nodes() {
@@ -317,7 +330,7 @@ var prop = &pbt.Prop{ID: "C07", Part: "hidden", Draw: draw, Check: check,
 	Valid: func(c *pbt.Case) bool {
 		var hs []hidden
 		collectHidden(c.Spec, &hs)
-		return len(hs) > 0 && gen.SpecRegular(c.Spec)
+		return len(hs) > 0 && gen.SpecRegularOrEmpty(c.Spec)
 	}}
 
 func TestProp(t *testing.T) { pbt.Run(t, prop) }
